@@ -942,4 +942,18 @@ theorem total_massIsotopes (e : Entry) :
     push_cast; ring
 
 
+theorem sumAb_pos (d : Dist Rat) (hpos : AllPos d) (hne : d ≠ []) : 0 < sumAb d := by
+  induction d with
+  | nil => exact absurd rfl hne
+  | cons q t ih =>
+    obtain ⟨k, a⟩ := q
+    have ha : 0 < a := hpos (k, a) (List.mem_cons_self ..)
+    have ht : AllPos t := fun p hp => hpos p (List.mem_cons_of_mem _ hp)
+    have : sumAb ((k, a) :: t) = a + sumAb t := by simp [sumAb, List.sum_cons]
+    rw [this]
+    cases t with
+    | nil => simp [sumAb]; exact ha
+    | cons r s => have := ih ht (by simp); linarith
+
+
 end Isotope
